@@ -353,9 +353,7 @@ func (i InfixExpression) PrettyPrint(out *PrintState) *PrintState {
 	} else {
 		out.Print(" ", i.Literal(), " ")
 	}
-	if i.Right == nil {
-		out.Print("nil")
-	} else {
+	if i.Right != nil { // nil only for the open ended range `[n:]`, which parses back as is.
 		i.Right.PrettyPrint(out)
 	}
 	if needParen {
